@@ -32,7 +32,7 @@ import (
 
 func TestMain(m *testing.M) { drv.Main(m) }
 
-const rule = "state machine on the real application: 2-3 validators, 3 owners, a superfluid-enabled balancer share (bond denom / token0) and, in two thirds of the cases, a superfluid-enabled concentrated share (bond denom / usdc, full-range positions through MsgCreateFullRangePositionAndSuperfluidDelegate and MsgAddToConcentratedLiquiditySuperfluidPosition, swaps on the concentrated pool); MsgLockAndSuperfluidDelegate, MsgLockTokens (1-3 unbonding periods) + MsgSuperfluidDelegate - in a quarter of the cases after the fresh lock has started unlocking, which must be refused -, lock top-ups of delegated locks, MsgSuperfluidUndelegate, MsgSuperfluidUnbondLock, MsgSuperfluidUndelegateAndUnbondLock (partial), forbidden MsgBeginUnlocking on delegated locks, price moves by swaps against the pool, superfluid epochs through the real x/epochs BeginBlocker followed by the superfluid BeginBlocker, time advances past the unbonding period with the lockup EndBlocker; mint provisions set to 0 so that any change of the reported bond-denom supply is superfluid's; oracle after every step: for each intermediary account delegated tokens vs E = risk-adjusted OSMO value (module's GetSuperfluidOSMOTokens) of the sum of the locks connected to it - exactly equal right after an epoch refresh, within 2 units per delegation-changing operation since the refresh otherwise; connected locks <=> locks carrying exactly one staking marker (superbonding synthetic lock) of the matching validator; every undelegated lock carries an unstaking marker ending exactly undelegation time + unbonding time and still exists before that; supply with offset unchanged; non-trivial = >= 2 locks through one intermediary account, a price move followed by an epoch, and an undelegation; distinct by history hash"
+const rule = "state machine on the real application: 2-3 validators, 3 owners, a superfluid-enabled balancer share (bond denom / token0) and, in two thirds of the cases, a superfluid-enabled concentrated share (bond denom / usdc, full-range positions through MsgCreateFullRangePositionAndSuperfluidDelegate and MsgAddToConcentratedLiquiditySuperfluidPosition, swaps on the concentrated pool); MsgLockAndSuperfluidDelegate, MsgLockTokens (1-3 unbonding periods) + MsgSuperfluidDelegate - in a quarter of the cases after the fresh lock has started unlocking, which must be refused -, lock top-ups of delegated locks, MsgSuperfluidUndelegate, MsgSuperfluidUnbondLock, MsgSuperfluidUndelegateAndUnbondLock (partial), forbidden MsgBeginUnlocking on delegated locks, price moves by swaps against the pool, superfluid epochs through the real x/epochs BeginBlocker followed by the superfluid BeginBlocker, time advances past the unbonding period with the lockup EndBlocker; mint provisions set to 0 so that any change of the reported bond-denom supply is superfluid's; oracle after every step: for each intermediary account delegated tokens vs E = risk-adjusted OSMO value (module's GetSuperfluidOSMOTokens) of the sum of the locks connected to it - exactly equal right after an epoch refresh, within 2 units per delegation-changing operation since the refresh otherwise; the staking-marker accumulation the refresh reads == sum of the connected locks for every intermediary account (slashed validators included); connected locks <=> locks carrying exactly one staking marker (superbonding synthetic lock) of the matching validator; every undelegated lock carries an unstaking marker ending exactly undelegation time + unbonding time and still exists before that; supply with offset unchanged; non-trivial = >= 2 locks through one intermediary account, a price move followed by an epoch, and an undelegation; distinct by history hash"
 
 type lk struct {
 	den       string // lock denom: the gamm share or the concentrated share
